@@ -418,6 +418,22 @@ func c16SameTx(a, b *bt.Tx) string {
 func c16TxDialects(c *mon.Ctx, tx *bt.Tx, stage string) {
 	other := &bt.Tx{Version: 2, LockTime: 5}
 	other.AddOutput(&bt.Output{Satoshis: 1, LockingScript: bscript.NewFromBytes([]byte{0x51})})
+	// what MarshalJSON returned belongs to the caller: it must still be the same document after later marshalling
+	c.Try("bt.(*Tx).MarshalJSON", func() {
+		a, err := tx.MarshalJSON()
+		if err != nil {
+			return
+		}
+		snap := append([]byte{}, a...)
+		_, _ = other.MarshalJSON()
+		_, _ = json.Marshal(bt.Txs{other, other})
+		c.Count("retained-marshal-result-checks")
+		if !bytes.Equal(a, snap) {
+			c16Viol(c, "C16:marshal-result-changed-later:Tx", func() string {
+				return fmt.Sprintf("the bytes returned by tx.MarshalJSON() changed after another transaction was marshalled (stage %s): now %.80s…, was %.80s…", stage, a, snap)
+			})
+		}
+	})
 	for _, d := range []string{"Tx", "tx.NodeJSON", "Txs", "Txs.NodeJSON"} {
 		key := "stage:" + stage + ":" + d
 		var js []byte
@@ -455,24 +471,51 @@ func c16TxDialects(c *mon.Ctx, tx *bt.Tx, stage string) {
 		}
 		var back *bt.Tx
 		var n int
+		// half of the destinations are fresh, half were used before (a decoder must not keep anything of the old content)
+		dirty := len(js)%2 == 1
+		used := func() *bt.Tx {
+			t := &bt.Tx{Version: 9, LockTime: 77}
+			for k := 0; k < 3; k++ {
+				in := &bt.Input{PreviousTxOutIndex: uint32(k), SequenceNumber: 5, UnlockingScript: bscript.NewFromBytes([]byte{0x52, 0x53})}
+				_ = in.PreviousTxIDAdd(bytes.Repeat([]byte{byte(0x30 + k)}, 32))
+				t.Inputs = append(t.Inputs, in)
+				t.AddOutput(&bt.Output{Satoshis: uint64(1000 + k), LockingScript: bscript.NewFromBytes([]byte{0x54, 0x55, 0x56})})
+			}
+			return t
+		}
+		if dirty {
+			c.Count("dirty-destination:" + d)
+		}
 		ok := c.Try("json.Unmarshal("+d+")", func() {
 			switch d {
 			case "Tx":
 				back = bt.NewTx()
+				if dirty {
+					back = used()
+				}
 				err = json.Unmarshal(js, back)
 				n = 1
 			case "tx.NodeJSON":
 				back = bt.NewTx()
+				if dirty {
+					back = used()
+				}
 				err = json.Unmarshal(js, back.NodeJSON())
 				n = 1
 			case "Txs":
 				var out bt.Txs
+				if dirty {
+					out = bt.Txs{used(), used(), used(), used(), used()}
+				}
 				err = json.Unmarshal(js, &out)
 				if n = len(out); n > 0 {
 					back = out[0]
 				}
 			case "Txs.NodeJSON":
 				var out bt.Txs
+				if dirty {
+					out = bt.Txs{used(), used(), used(), used(), used()}
+				}
 				err = json.Unmarshal(js, out.NodeJSON())
 				if n = len(out); n > 0 {
 					back = out[0]
